@@ -788,6 +788,19 @@ func (e *SpecEnv) evalCall(x *SCall) Val {
 			return v
 		case "effects":
 			return Val{T: types.Typ[types.Int], S: e.st.get(HeapKey{Name: "G_effects", Sort: "Int"})}
+		case "fresh": // fresh(x): the object / backing array x refers to was allocated during this call (or x is nil)
+			v := e.eval(x.Args[0])
+			if e.old == nil {
+				e.fail("fresh() used where no entry state exists")
+			}
+			w := e.old.watermark()
+			switch refKind(v.T) {
+			case "ptr":
+				return Val{T: boolT, S: fmt.Sprintf("(or (= %s 0) (> %s %s))", c.termOf(v), c.termOf(v), w)}
+			case "slice":
+				return Val{T: boolT, S: fmt.Sprintf("(or (= (s_ref %s) 0) (> (s_ref %s) %s))", v.S, v.S, w)}
+			}
+			e.fail("fresh() needs a pointer, map, channel or slice")
 		case "typeis": // typeis(ifaceValue, T)
 			v := e.eval(x.Args[0])
 			tn := x.Args[1].String()
